@@ -56,7 +56,7 @@ def section_tables():
     # the dispatcher returns what the cell it must dispatch to returns: whatever class the table
     # cell for the operand kinds belongs to, the result has that class's defining property
     KR = "mlrval.VKind(r)"
-    w('//@ spec func cellOK2(f BinaryFunc, a, b, r *mlrval.Mlrval) bool { return r != nil && imp(inClass(f, "bifs.ret1"), r == a) && imp(inClass(f, "bifs.ret2"), r == b) && imp(inClass(f, "bifs.pick2"), r == a || r == b) && imp(inClass(f, "bifs.absent2"), ' + KR + ' == mlrval.MT_ABSENT) && imp(inClass(f, "bifs.void2"), ' + KR + ' == mlrval.MT_VOID) && imp(inClass(f, "bifs.null2"), ' + KR + ' == mlrval.MT_NULL) && imp(inClass(f, "bifs.error2"), ' + KR + ' == mlrval.MT_ERROR) && imp(inClass(f, "bifs.num2"), ' + KR + ' == mlrval.MT_INT || ' + KR + ' == mlrval.MT_FLOAT || ' + KR + ' == mlrval.MT_ERROR) }')
+    w('//@ spec func cellOK2(f BinaryFunc, a, b, r *mlrval.Mlrval) bool { return r != nil && imp(inClass(f, "bifs.ret1"), r == a) && imp(inClass(f, "bifs.ret2"), r == b) && imp(inClass(f, "bifs.pick2"), r == a || r == b) && imp(inClass(f, "bifs.absent2"), ' + KR + ' == mlrval.MT_ABSENT) && imp(inClass(f, "bifs.void2"), ' + KR + ' == mlrval.MT_VOID) && imp(inClass(f, "bifs.null2"), ' + KR + ' == mlrval.MT_NULL) && imp(inClass(f, "bifs.error2"), ' + KR + ' == mlrval.MT_ERROR) && imp(inClass(f, "bifs.num2"), ' + KR + ' == mlrval.MT_INT || ' + KR + ' == mlrval.MT_FLOAT || ' + KR + ' == mlrval.MT_ERROR) && imp(inClass(f, "bifs.sumII"), imp(mlrval.IsIntVal(a) && mlrval.IsIntVal(b) && addFits(mlrval.VInt(a), mlrval.VInt(b)), mlrval.IsIntVal(r) && mlrval.VInt(r) == mlrval.VInt(a) + mlrval.VInt(b))) }')
     w('//@ spec func cellOK1(f UnaryFunc, a, r *mlrval.Mlrval) bool { return r != nil && imp(inClass(f, "bifs.ret1u"), r == a) && imp(inClass(f, "bifs.absent1"), ' + KR + ' == mlrval.MT_ABSENT) && imp(inClass(f, "bifs.void1"), ' + KR + ' == mlrval.MT_VOID) && imp(inClass(f, "bifs.null1"), ' + KR + ' == mlrval.MT_NULL) && imp(inClass(f, "bifs.error1"), ' + KR + ' == mlrval.MT_ERROR) }')
     # dispatchers: index safety, every cell's kernel precondition holds for the operand kinds that reach it
     w("//@ properties C08 C18")
